@@ -355,9 +355,16 @@ impl Dumper {
 				self.out.push(')');
 			}
 			Expr::Index { indexable, parts } => {
+				// (a.b).c and a.b.c denote the same tree: chains are flattened
+				let mut chain: Vec<&Vec<jrsonnet_ir::IndexPart>> = vec![parts];
+				let mut base: &Expr = indexable;
+				while let Expr::Index { indexable, parts } = base {
+					chain.push(parts);
+					base = indexable;
+				}
 				self.out.push_str("(index ");
-				self.expr(indexable);
-				for p in parts {
+				self.expr(base);
+				for p in chain.into_iter().rev().flatten() {
 					self.span("IndexPart", &p.span, "");
 					#[cfg(feature = "exp")]
 					self.out
